@@ -92,6 +92,9 @@ def c06_boundary():
                     res=['i8', 'f']))
     out.append(dict(args=[], nfixed=0, vararg=False, res=['i64', 'd', 'ld', 'u8', 'ld', 'f']))
     out.append(dict(args=['rblk:24', 'i64'], nfixed=2, vararg=False, res=[]))
+    # frameless leaf candidates: register-only parameters (bodies: see LEAF_BODIES in gen_cases)
+    for a in ([], ['i64'], ['i64', 'd'], ['i32', 'i64', 'u8'], ['d', 'f']):
+        out.append(dict(args=a, nfixed=len(a), vararg=False, res=['i64'], leaf=True))
     out.append(dict(args=['rblk:40', 'd', 'blk:24'], nfixed=3, vararg=False, res=['d']))
     for p in out:
         p['style'] = 'boundary'
@@ -117,6 +120,14 @@ def gen_cases(chk, quick):
         resvals = H.res_values(rng, p)
         junk = [rng.getrandbits(64) for _ in range(40)]
         engs = ENGINES if (not quick or k < 50) else ['interp', rng.choice(ENGINES[1:5]), rng.choice(ENGINES[1:])]
+        if p.get('leaf'):
+            # 8..12 simultaneously live integers, no call/alloca/stack: the function may be frameless
+            for nl in (7, 8, 9, 10, 11, 12, 13):
+                for e in ('gen1', 'gen2', 'gen3', 'lazy'):
+                    b = H.gen_body(rng)
+                    b.update(kind='leafpress', nlive=nl)
+                    cases.append(dict(proto=p, vals=vals, resvals=resvals, body=b, engine=e, junk=junk))
+            continue
         for e in dict.fromkeys(engs):
             cases.append(dict(proto=p, vals=vals, resvals=resvals, body=H.gen_body(rng), engine=e, junk=junk))
     return cases
@@ -178,7 +189,7 @@ def run(chk):
     cases = gen_cases(chk, quick)
     for c in cases:
         p = c['proto']
-        chk.count((G.proto_sig(p), c['engine'], c['body']['kind'], [v.hex() for v in c['vals']]),
+        chk.count((G.proto_sig(p), c['engine'], c['body']['kind'], c['body'].get('nlive'), [v.hex() for v in c['vals']]),
                   nontrivial=len(p['args']) + len(p['res']) >= 2)
         chk.dist('engine', c['engine'])
         chk.dist('body', c['body']['kind'])
@@ -200,8 +211,6 @@ def run(chk):
         # about the same call is still judged
         sret = [b for b in bad if b.startswith(H.SRET_MSG)]
         bad = [b for b in bad if not b.startswith(H.SRET_MSG)]
-        if not any(sig == 'c06:sret-rax' for sig, _ in chk.known):
-            sret = []  # transitional: judged once the finding is listed in KNOWN_FINDINGS.txt
         if sret and not sret_done:
             sret_done = True
             w = dict(c, proto=dict(args=['rblk:24', 'i64'], nfixed=2, vararg=False, res=[]), vals=[bytes(24), bytes(8)],
